@@ -42,7 +42,7 @@ def main():
         # normalise copy_to / cmd written against the agent's worktree
         copy_to = re.sub(r"/tmp/wt/[A-Za-z0-9]+/?", "", copy_to).strip()
         copy_to = copy_to.split(" ")[0].strip("()/") if copy_to else "."
-        if copy_to in ("", "module", "root"):
+        if copy_to in ("", "module", "root") or not os.path.isdir(os.path.join(repo, copy_to)):
             copy_to = "."
         m = re.search(r"(go (test|run|vet)[^\n(]*)", cmd)
         gocmd = m.group(1).strip() if m else cmd
